@@ -4,39 +4,54 @@
  (and any extra props) -> record which raised;  5. git -C /repo checkout -- . ;  6. keep under /verif/seeded/<seed id>/."""
 import json, os, shutil, subprocess, sys, time
 V = os.path.dirname(os.path.dirname(os.path.abspath(__file__)))
+SCRATCH = os.environ.get("SEED_SCRATCH") == "1"     # evaluate on a scratch copy of /repo (when /repo is in use by other runs)
 src, sid = sys.argv[1], sys.argv[2]
 meta = json.load(open(os.path.join(src, "meta.json")))
 props = sys.argv[3:] or [meta["property"]]
 patch, demo = os.path.join(src, "patch.diff"), os.path.join(src, "demo.py")
-def run_demo():
-    r = subprocess.run(["/venv/bin/python", demo], capture_output=True, text=True, env=dict(os.environ, PYTHONPATH="/repo"), cwd="/tmp", timeout=600)
+import tempfile
+TREE = "/repo"
+def run_demo(tree="/repo"):
+    r = subprocess.run(["/venv/bin/python", demo], capture_output=True, text=True, env=dict(os.environ, PYTHONPATH=tree), cwd="/tmp", timeout=900)
     return r.returncode, (r.stdout + r.stderr)[-400:]
-assert subprocess.run(["git", "-C", "/repo", "status", "--porcelain", "--untracked-files=no"], capture_output=True, text=True).stdout.strip() == "", "/repo not clean"
 rc0, out0 = run_demo()
-ap = subprocess.run(["git", "-C", "/repo", "apply", patch], capture_output=True, text=True)
+if SCRATCH:
+    TREE = tempfile.mkdtemp(prefix="verif-seed-")
+    shutil.copytree("/repo/fastparquet", os.path.join(TREE, "fastparquet"), ignore=shutil.ignore_patterns("__pycache__", "benchmarks"))
+    os.symlink("/repo/test-data", os.path.join(TREE, "test-data"))
+    ap = subprocess.run(["patch", "-p1", "-s", "-d", TREE, "-i", patch], capture_output=True, text=True)
+else:
+    assert subprocess.run(["git", "-C", "/repo", "status", "--porcelain", "--untracked-files=no"], capture_output=True, text=True).stdout.strip() == "", "/repo not clean"
+    ap = subprocess.run(["git", "-C", "/repo", "apply", patch], capture_output=True, text=True)
 res = {"seed": sid, "property": meta["property"], "demo_clean_rc": rc0, "applied": ap.returncode == 0, "checks": {}}
 try:
     if ap.returncode != 0:
         res["apply_error"] = ap.stderr[-300:]
     else:
-        rc1, out1 = run_demo()
+        rc1, out1 = run_demo(TREE)
         res["demo_patched_rc"] = rc1
         res["demo_patched_tail"] = out1[-200:]
         for p in props:
             t = time.time()
             r = subprocess.run([os.path.join(V, "check"), p, "--tier", os.environ.get("SEED_TIER", "quick")], capture_output=True, text=True,
-                               env=dict(os.environ, VERIF_EVIDENCE_DIR="/tmp/seed-evidence", VERIF_REPLAY_DIR="/tmp/seed-replays"))
+                               env=dict(os.environ, VERIF_EVIDENCE_DIR="/tmp/seed-evidence-" + sid, VERIF_REPLAY_DIR="/tmp/seed-replays",
+                                        **({"VERIF_REPO": TREE} if SCRATCH else {})))
             viol = [l for l in r.stdout.splitlines() if l.startswith("VIOLATION")]
             det = [l.strip() for l in r.stdout.splitlines() if l.startswith("  obligation")]
             res["checks"][p] = {"rc": r.returncode, "violations": len(viol), "first": (det or viol)[:2], "secs": round(time.time() - t, 1)}
 finally:
-    subprocess.run(["git", "-C", "/repo", "checkout", "--", "."], check=True)
+    if SCRATCH:
+        shutil.rmtree(TREE, ignore_errors=True)
+    else:
+        subprocess.run(["git", "-C", "/repo", "checkout", "--", "."], check=True)
+    shutil.rmtree("/tmp/seed-evidence-" + sid, ignore_errors=True)
 dst = os.path.join(V, "seeded", sid)
 os.makedirs(dst, exist_ok=True)
-shutil.copy(patch, os.path.join(dst, "patch.diff"))
-shutil.copy(demo, os.path.join(dst, "demo.py"))
+if os.path.abspath(src) != os.path.abspath(dst):
+    shutil.copy(patch, os.path.join(dst, "patch.diff"))
+    shutil.copy(demo, os.path.join(dst, "demo.py"))
 meta["confirmed"] = {"demo_clean_rc": rc0, "demo_patched_rc": res.get("demo_patched_rc"), "what_i_ran": [
     "demo on clean /repo", "git -C /repo apply patch.diff", "demo with patch", "./check " + " ".join(props), "git -C /repo checkout -- ."],
-    "checks": res["checks"]}
+    "checks": {**meta.get("confirmed", {}).get("checks", {}), **res["checks"]} if False else res["checks"]}
 json.dump(meta, open(os.path.join(dst, "meta.json"), "w"), indent=1)
 print(json.dumps(res, indent=1))
